@@ -1,33 +1,182 @@
 package interp
 
 import (
-	"go/types"
+	"fmt"
+	"os"
+	"sort"
+	"strings"
 
 	"gosym/sym"
 
 	"golang.org/x/tools/go/ssa"
 )
 
-// footprint records, per origin tag, which heap cells were read and written
-// (C15's conflict-freedom lemma). Disabled unless a harness arms it.
+// footprint records which heap cells the code under test reads and writes
+// while serving each connection (the origin tag set by the harness), with the
+// locks held at the time. C15's conflict-freedom lemma is a check over these
+// sets on every explored path: no cell written under one origin is read or
+// written under another unless both accesses are operations of sync/atomic
+// or hold a common lock. Accesses made by harness code itself (callbacks'
+// own bookkeeping) are not part of the library's footprint and are skipped.
 type footprint struct {
-	owner  map[*Value]*objInfo
-	reads  map[*objInfo]map[string]accessInfo
-	writes map[*objInfo]map[string]accessInfo
-	held   map[*Value]int
-	seq    int
+	acc  map[interface{}][]access
+	held map[*Value]int
+	n    int
 }
 
-type objInfo struct {
-	id     int
+type access struct {
 	origin string
+	write  bool
+	atomic bool
+	locks  []*Value
 	where  string
 }
 
-type accessInfo struct {
-	where  string
-	locked bool
-	atomic bool
+func (e *Exec) inHarnessCode() bool {
+	fr := e.cur
+	if fr == nil {
+		return true
+	}
+	if fr.fn.Pos().IsValid() {
+		f := e.M.Prog.Fset.Position(fr.fn.Pos()).Filename
+		return strings.Contains(f, "zz_verif_")
+	}
+	return false
+}
+
+func (f *footprint) record(e *Exec, key interface{}, write, atomic bool) {
+	if e.origin == "" || e.inHarnessCode() {
+		return
+	}
+	list := f.acc[key]
+	// keep one representative per (origin, kind) to bound the log
+	for _, a := range list {
+		if a.origin == e.origin && a.write == write && a.atomic == atomic && len(a.locks) == len(f.held) {
+			return
+		}
+	}
+	var locks []*Value
+	for l, n := range f.held {
+		if n > 0 {
+			locks = append(locks, l)
+		}
+	}
+	f.acc[key] = append(list, access{origin: e.origin, write: write, atomic: atomic, locks: locks, where: e.where()})
+	f.n++
+}
+
+func (f *footprint) access(e *Exec, p *Value, write, atomic bool) {
+	f.record(e, p, write, atomic)
+	// a whole-aggregate access touches every field cell as well
+	if s, ok := (*p).(Struct); ok {
+		for i := range s {
+			f.access(e, &s[i], write, atomic)
+		}
+	}
+}
+
+func (f *footprint) newObj(e *Exec, p *Value)               {}
+func (f *footprint) derive(e *Exec, base, p *Value)         {}
+func (f *footprint) storeCell(e *Exec, st *Store, p *Value) { f.record(e, p, true, false) }
+func (f *footprint) read(p *Value)                          {}
+
+func (f *footprint) lock(p *Value, d int) {
+	f.held[p] += d
+	if f.held[p] <= 0 {
+		delete(f.held, p)
+	}
+}
+
+func (e *Exec) noteMapAccess(m *Map, write bool) {
+	if e.foot != nil && m != nil {
+		e.foot.record(e, m, write, false)
+	}
+}
+
+func common(a, b []*Value) bool {
+	for _, x := range a {
+		for _, y := range b {
+			if x == y {
+				return true
+			}
+		}
+	}
+	return false
+}
+
+// conflicts lists unsynchronised cross-origin access pairs.
+func (f *footprint) conflicts() []string {
+	var out []string
+	for _, list := range f.acc {
+		for i := 0; i < len(list); i++ {
+			for j := i + 1; j < len(list); j++ {
+				a, b := list[i], list[j]
+				if a.origin == b.origin || (!a.write && !b.write) {
+					continue
+				}
+				if a.atomic && b.atomic {
+					continue
+				}
+				if common(a.locks, b.locks) {
+					continue
+				}
+				out = append(out, fmt.Sprintf("%s(%s,%s) vs %s(%s,%s)", a.origin, rw(a.write), a.where, b.origin, rw(b.write), b.where))
+			}
+		}
+	}
+	sort.Strings(out)
+	return out
+}
+
+func rw(w bool) string {
+	if w {
+		return "write"
+	}
+	return "read"
+}
+
+func footBegin(e *Exec, c *frame, fn *ssa.Function, a []Value) Value {
+	e.foot = &footprint{acc: map[interface{}][]access{}, held: map[*Value]int{}}
+	return nil
+}
+
+// vFootReport(label, kf): asserts conflict-freedom of what was recorded.
+func footReport(e *Exec, c *frame, fn *ssa.Function, a []Value) Value {
+	if e.foot == nil {
+		e.unsupported("vFootReport without vFootBegin")
+	}
+	label := e.strArg(a[0])
+	kf := e.strArg(a[1])
+	conf := e.foot.conflicts()
+	if e.replaying() {
+		return nil
+	}
+	if len(conf) > 0 {
+		if os.Getenv("GOSYM_FOOT") != "" {
+			fmt.Fprintln(os.Stderr, "FOOT", strings.Join(conf, "\nFOOT "))
+		}
+		e.res.Observed = append(e.res.Observed, conf...)
+		// distinguish the known site (the shared pgtype.Map) from anything else
+		onlyKnown := true
+		for _, c := range conf {
+			if !strings.Contains(c, "Column.Write") && !strings.Contains(c, "pgtype") && !strings.Contains(c, "Parameter.Scan") && !strings.Contains(c, "NewScanner") {
+				onlyKnown = false
+			}
+		}
+		detail := conf[0]
+		if len(conf) > 1 {
+			detail += fmt.Sprintf(" (+%d more)", len(conf)-1)
+		}
+		e.misc["foot:last"] = litString(detail)
+		if onlyKnown && kf != "" && e.M.Known[kf] {
+			e.Assert(label, sym.Bool(false), kf, sym.Bool(true))
+			return nil
+		}
+		e.Assert(label+": "+clip(detail), sym.Bool(false), "", sym.Bool(false))
+		return nil
+	}
+	e.Assert(label, sym.Bool(true), "", sym.Bool(false))
+	return nil
 }
 
 func (e *Exec) noteWrite(p *Value) {
@@ -44,27 +193,15 @@ func (e *Exec) noteRead(p *Value) {
 
 func (e *Exec) noteAtomic(p *Value) {
 	if e.foot != nil {
-		e.foot.access(e, p, true, true)
+		e.foot.record(e, p, true, true)
 	}
 }
 
-func (e *Exec) noteAlloc(p *Value, instr *ssa.Alloc) {
-	if e.foot != nil {
-		e.foot.newObj(e, p)
-	}
-}
-
-func (e *Exec) noteDerived(base, p *Value) {
-	if e.foot != nil {
-		e.foot.derive(e, base, p)
-	}
-}
+func (e *Exec) noteAlloc(p *Value, instr *ssa.Alloc) {}
+func (e *Exec) noteDerived(base, p *Value)           {}
 
 func (e *Exec) noteStoreCell(st *Store, p *Value) {
 	if e.foot != nil {
 		e.foot.storeCell(e, st, p)
 	}
 }
-
-var _ = types.Typ
-var _ = sym.Bool
